@@ -1,4 +1,6 @@
 import Aiortc.Gen.Serial
+import Aiortc.Gen.Sctp
+import Aiortc.Gen.Rtp
 import Aiortc.Drv.Util
 /-! Driver for the regenerated serial-number functions (self-check of the translator). -/
 namespace Aiortc.Drv.Serial
